@@ -4,30 +4,26 @@ PRELUDE = r'''
 // ---- tendermint / crypto shim (trusted): small finite stand-ins with the same names and field layout ----
 pub const MAXV: usize = 2;   // bound on validators and on commit signatures in this unit's harnesses
 
-/// fixed-capacity list standing in for Vec (iteration only): avoids heap modelling in CBMC
+/// fixed-capacity list standing in for Vec (iteration only): avoids heap modelling in CBMC.
+/// Plain array + length (no Option slots: niche-encoded Option slots gave counterexamples in Kani 0.68 that do not reproduce natively).
 #[derive(Clone, Copy, Debug)]
-pub struct List<T: Copy> { pub items: [Option<T>; MAXV], pub n: usize }
-impl<T: Copy> List<T> {
-    pub fn new() -> Self { List { items: [None; MAXV], n: 0 } }
-    pub fn push(&mut self, v: T) { assert!(self.n < MAXV); self.items[self.n] = Some(v); self.n += 1; }
+pub struct List<T: Copy + Default> { pub items: [T; MAXV], pub n: usize }
+impl<T: Copy + Default> List<T> {
+    pub fn new() -> Self { List { items: [T::default(); MAXV], n: 0 } }
+    pub fn push(&mut self, v: T) { assert!(self.n < MAXV); self.items[self.n] = v; self.n += 1; }
     pub fn len(&self) -> usize { self.n }
-    pub fn iter(&self) -> ListIter<'_, T> { ListIter { l: self, i: 0 } }
-    pub fn at(&self, i: usize) -> &T { self.items[i].as_ref().unwrap() }
+    pub fn iter(&self) -> std::slice::Iter<'_, T> { self.items[..self.n].iter() }
+    pub fn at(&self, i: usize) -> &T { assert!(i < self.n); &self.items[i] }
 }
-pub struct ListIter<'a, T: Copy> { l: &'a List<T>, i: usize }
-impl<'a, T: Copy> Iterator for ListIter<'a, T> {
-    type Item = &'a T;
-    fn next(&mut self) -> Option<&'a T> { if self.i < self.l.n { let r = self.l.items[self.i].as_ref(); self.i += 1; r } else { None } }
-}
-impl<'a, T: Copy> IntoIterator for &'a List<T> { type Item = &'a T; type IntoIter = ListIter<'a, T>; fn into_iter(self) -> ListIter<'a, T> { self.iter() } }
+impl<'a, T: Copy + Default> IntoIterator for &'a List<T> { type Item = &'a T; type IntoIter = std::slice::Iter<'a, T>; fn into_iter(self) -> std::slice::Iter<'a, T> { self.iter() } }
 
 /// association list standing in for std::collections::HashMap (same API subset: collect, get)
-pub struct HashMap<K: Copy, V: Copy> { pub items: List<(K, V)> }
+pub struct HashMap<K: Copy, V: Copy> { pub keys: [Option<K>; MAXV], pub vals: [Option<V>; MAXV], pub n: usize }
 impl<K: PartialEq + Copy, V: Copy> FromIterator<(K, V)> for HashMap<K, V> {
     fn from_iter<I: IntoIterator<Item = (K, V)>>(iter: I) -> Self {
-        let mut items: List<(K, V)> = List::new();
-        for kv in iter { items.push(kv); }
-        HashMap { items }
+        let mut m = HashMap { keys: [None; MAXV], vals: [None; MAXV], n: 0 };
+        for (k, v) in iter { assert!(m.n < MAXV); m.keys[m.n] = Some(k); m.vals[m.n] = Some(v); m.n += 1; }
+        m
     }
 }
 impl<K: PartialEq + Copy, V: Copy> HashMap<K, V> {
@@ -35,13 +31,13 @@ impl<K: PartialEq + Copy, V: Copy> HashMap<K, V> {
     pub fn get(&self, k: &K) -> Option<&V> {
         let mut res = None;
         let mut i = 0;
-        while i < self.items.n { let it = self.items.items[i].as_ref().unwrap(); if it.0 == *k { res = Some(&it.1); } i += 1; }
+        while i < self.n { if self.keys[i] == Some(*k) { res = self.vals[i].as_ref(); } i += 1; }
         res
     }
 }
 /// std::collections::HashSet stand-in (insert returns whether the value was new)
-pub struct HashSet<K: Copy> { pub items: List<K> }
-impl<K: PartialEq + Copy> HashSet<K> {
+pub struct HashSet<K: Copy + Default> { pub items: List<K> }
+impl<K: PartialEq + Copy + Default> HashSet<K> {
     pub fn new() -> Self { HashSet { items: List::new() } }
     pub fn with_capacity(_n: usize) -> Self { HashSet { items: List::new() } }
     pub fn insert(&mut self, k: K) -> bool { let mut i = 0; while i < self.items.n { if *self.items.at(i) == k { return false; } i += 1; } self.items.push(k); true }
@@ -81,13 +77,13 @@ impl TryFrom<&[u8]> for Signature {
 }
 
 pub mod tendermint {
-    #[derive(Clone, Copy, Debug, PartialEq, Eq)] pub struct Time(pub u8);
-    #[derive(Clone, Copy, Debug, PartialEq, Eq)] pub struct PublicKey(pub u8);
+    #[derive(Clone, Copy, Debug, PartialEq, Eq, Default)] pub struct Time(pub u8);
+    #[derive(Clone, Copy, Debug, PartialEq, Eq, Default)] pub struct PublicKey(pub u8);
     impl PublicKey { pub fn to_bytes(&self) -> [u8; 1] { [self.0] } }
-    #[derive(Clone, Copy, Debug, PartialEq, Eq)] pub struct TmSignature(pub u8);
+    #[derive(Clone, Copy, Debug, PartialEq, Eq, Default)] pub struct TmSignature(pub u8);
     impl TmSignature { pub fn as_bytes(&self) -> &[u8] { std::slice::from_ref(&self.0) } }
     pub mod account {
-        #[derive(Clone, Copy, Debug, PartialEq, Eq)] pub struct Id(pub u8);
+        #[derive(Clone, Copy, Debug, PartialEq, Eq, Default)] pub struct Id(pub u8);
         /// address = hash of the public key; modelled as an injective function (H-inj)
         impl From<super::PublicKey> for Id { fn from(k: super::PublicKey) -> Id { Id(k.0.wrapping_mul(7).wrapping_add(3)) } }
     }
@@ -96,9 +92,9 @@ pub mod tendermint {
         #[derive(Clone, Copy, Debug, PartialEq, Eq)] pub struct Height(pub u64);
         #[derive(Clone, Copy, Debug, PartialEq, Eq)] pub struct Round(pub u8);
         #[derive(Clone, Copy, Debug, PartialEq, Eq)] pub struct Id(pub u8);
-        #[derive(Clone, Copy, Debug, PartialEq, Eq)]
+        #[derive(Clone, Copy, Debug, PartialEq, Eq, Default)]
         pub enum CommitSig {
-            BlockIdFlagAbsent,
+            #[default] BlockIdFlagAbsent,
             BlockIdFlagCommit { validator_address: super::account::Id, timestamp: super::Time, signature: Option<super::TmSignature> },
             BlockIdFlagNil { validator_address: super::account::Id, timestamp: super::Time, signature: Option<super::TmSignature> },
         }
@@ -114,7 +110,7 @@ pub mod tendermint {
         }
     }
     pub mod validator {
-        #[derive(Clone, Copy, Debug)] pub struct Info { pub address: super::account::Id, pub pub_key: super::PublicKey, pub power: u64 }
+        #[derive(Clone, Copy, Debug, Default)] pub struct Info { pub address: super::account::Id, pub pub_key: super::PublicKey, pub power: u64 }
         impl Info { pub fn power(&self) -> u64 { self.power } }
     }
 }
